@@ -70,7 +70,9 @@ PollResult(c, res, kind, val, rq, insts, ns, si, sc, sk) ==
   /\ st[c] = "live" /\ Step(insts, ns, si, sc, sk) /\ st' = [st EXCEPT ![c] = "done"]
   /\ OnceOK(c, gates'[c])
   /\ rerr' = rerr
-  /\ (IF cfg.retries = 1 /\ (rerr[c] \/ ReadyErr(insts))
+  \* cfg.noretry = 1: the layer is configured so that this request's failure is final (one attempt, or a predicate that
+  \* refuses it): its own error comes back unchanged, whatever the wrapped service's readiness says afterwards
+  /\ (IF cfg.retries = 1 /\ (rerr[c] \/ ReadyErr(insts)) /\ ~("noretry" \in DOMAIN cfg /\ cfg.noretry = 1)
       THEN \* the inner service failed readiness before a retry: it surfaces as that readiness error
            (res = "err" /\ kind = "inner7")
       ELSE IF res = "ok" THEN (rq = c /\ val \in gates'[c])
